@@ -370,7 +370,6 @@ func c09Wide(c *core.Ctx) bool {
 		Roles  []string
 		Nested struct{ Roles []string }
 	}
-	shared := &z.ZogIssue{Code: "record", Message: "record-level problem"}
 	outsA, outsB, outsC := map[string]int{}, map[string]int{}, map[string]int{}
 	for i := 0; i < 40; i++ {
 		var b brk
@@ -381,6 +380,7 @@ func c09Wide(c *core.Ctx) bool {
 		rq := httptest.NewRequest("GET", "/x?roles=&roles=admin&roles=dev", nil)
 		m = z.Struct(z.Schema{"roles": z.Slice(z.String()), "nested": z.Struct(z.Schema{"roles": z.Slice(z.String())})}).Parse(zhttp.Request(rq), &rt)
 		outsB[fmt.Sprintf("%q %q [%s]", rt.Roles, rt.Nested.Roles, dKeys(m))]++
+		shared := &z.ZogIssue{Code: "record", Message: "record-level problem"} // a fresh object per run
 		var two struct{ Owner, Editor string }
 		fail := func(any, z.Ctx) bool { return true }
 		_ = fail
